@@ -1,5 +1,6 @@
 #![allow(dead_code, unused_imports, deprecated, clippy::too_many_arguments)]
 mod acl;
+mod bulk;
 mod cards;
 mod checks;
 mod crash;
